@@ -34,6 +34,7 @@ func (c *cluster) commitObserved(n *node, how string, idx, term uint64, typ pb.E
 	if !dataKnown {
 		return // only a snapshot boundary (index, term): nothing to record
 	}
+	c.histW()
 	for int(idx) >= len(c.ledger) {
 		c.ledger = append(c.ledger, ledgerEnt{})
 	}
@@ -127,6 +128,9 @@ func (c *cluster) check(n, before *node, eff *effects, e Event) {
 	// --- election safety + leader completeness
 	if n.isLeader() {
 		t := n.status.Term
+		if int(t) >= len(c.leaderOf) || c.leaderOf[t] == 0 {
+			c.histW()
+		}
 		for int(t) >= len(c.leaderOf) {
 			c.leaderOf = append(c.leaderOf, 0)
 		}
